@@ -39,7 +39,7 @@ def run(ctx, anchors=None):
     ctx.rule("R12.4", "position counter: +1 per successful operation step, -1 per accepted rewind (shared with C04 R04.2)")
     ctx.rule("R12.5", "the marker / echoed line are indexed by the position counter and bounded by the line count")
     from . import common
-    main = common.func_calling(fb, "btcdeb.cpp", "ContinueScript")
+    main = common.driver_of(fb, prog, "btcdeb.cpp", "ContinueScript")
     cfg = main.cfg()
     common.require_names(main, ["script_ptrs", "script_headers", "count", "tc_desc", "script_lines", "has_p2sh", "header"], "R12.1")
     # ---- R12.1
